@@ -261,12 +261,14 @@ int __wrap_epoll_wait(int epfd, struct epoll_event *events, int maxevents, int t
         /* give live threads and running child processes (VERIF_VT_WAIT_MS of real time, default 60 s)
          * the chance to post their results / produce output first */
         /* The real-time patience is proportional to how far virtual time would jump: a short sleep next
-         * to a long-running child costs 50 ms, a 1000 s watchdog deadline waits up to ~50 s. */
+         * to a long-running child costs 20 ms (50 ms while a child process runs), a 1000 s watchdog deadline waits up to ~50 s. */
         int max_spins = vt_wait_spins;
         if (timer_armed) {
             int64_t dist_ms = (timer_when_ns - __atomic_load_n(&vnow_ns, __ATOMIC_SEQ_CST)) / 1000000;
             int64_t cap_ms = dist_ms / 20;
-            if (cap_ms < 50) cap_ms = 50;
+            /* a child that was just spawned may still hold close-on-exec copies of our descriptors for a moment */
+            int64_t floor_ms = running_children() ? 50 : 20;
+            if (cap_ms < floor_ms) cap_ms = floor_ms;
             if (cap_ms / 5 < max_spins) max_spins = (int)(cap_ms / 5);
         }
         for (int spins = 0; spins < max_spins && (__atomic_load_n(&live_threads, __ATOMIC_SEQ_CST) > 0 || running_children()); spins++) {
